@@ -1,0 +1,40 @@
+// +build verif
+
+package cmd
+
+import (
+	"os"
+	"strings"
+	"time"
+)
+
+// verifPoints is parsed from the environment variable VERIF_POINTS:
+//   name=sleep:50ms,name2=sleep:1s
+var verifPoints = func() map[string]time.Duration {
+	m := map[string]time.Duration{}
+	for _, item := range strings.Split(os.Getenv("VERIF_POINTS"), ",") {
+		kv := strings.SplitN(item, "=sleep:", 2)
+		if len(kv) != 2 {
+			continue
+		}
+		if d, err := time.ParseDuration(kv[1]); err == nil {
+			m[kv[0]] = d
+		}
+	}
+	return m
+}()
+
+// verifPoint pauses the calling goroutine when the verification
+// harness asked for it, to steer which of several ready channels a
+// select statement finds.
+func verifPoint(name string) {
+	if d, ok := verifPoints[name]; ok {
+		if f := os.Getenv("VERIF_POINTS_TRACE"); f != "" {
+			if fh, err := os.OpenFile(f, os.O_APPEND|os.O_CREATE|os.O_WRONLY, 0644); err == nil {
+				fh.WriteString(name + "\n")
+				fh.Close()
+			}
+		}
+		time.Sleep(d)
+	}
+}
